@@ -140,6 +140,47 @@ def run_dea_pair(pair):
     return None
 
 
+def wynn_reference(seq):
+    """spec/Wynn.tla's recurrence  e[k+1](n) = e[k-1](n+1) + 1/(e[k](n+1) - e[k](n))  in floating point over the WHOLE table
+    (anti-diagonal by anti-diagonal, with the code's 1e-60 guard): after each term the entry of highest even order"""
+    out, prev = [], []
+    for n, s_n in enumerate(seq):
+        new = [s_n]
+        for j in range(1, n + 1):
+            delta = new[j - 1] - prev[j - 1]
+            new.append(1.0e+60 if abs(delta) <= 1.0e-60 else (prev[j - 2] if j >= 2 else 0.0) + 1.0 / delta)
+        out.append(new[n - n % 2])
+        prev = new
+    return out
+
+
+def run_eps_long(item):
+    """EpsAlg on long sequences (beyond any fixed window): every returned value equals, bit for bit, the entry of the
+    full table (same arithmetic, so no tolerance is involved)"""
+    vlib.use_repo()
+    from numdifftools import extrapolation as ex
+    kind, seed, length = item
+    rnd = random.Random(seed)
+    if kind == 0:
+        seq = [rnd.gauss(0, 1) for _ in range(length)]
+    elif kind == 1:
+        seq = [float(rnd.randint(-64, 64)) / 8.0 for _ in range(length)]
+    else:
+        L, a, q, b, p = rnd.uniform(-2, 2), rnd.uniform(-2, 2), rnd.choice([0.5, -0.7, 0.9]), rnd.uniform(-1, 1), rnd.choice([0.25, -0.3])
+        seq = [L + a * q ** i + b * p ** i + 1e-3 * rnd.random() for i in range(length)]
+    with np.errstate(all='ignore'):
+        want = wynn_reference(seq)
+        ea = ex.EpsAlg()
+        for j, v in enumerate(seq):
+            try:
+                got = ea(v)
+            except Exception as e:
+                return 'EpsAlg raised %r at term %d of a %d-term sequence' % (e, j + 1, length)
+            if not (got == want[j] or (np.isnan(got) and np.isnan(want[j]))):
+                return 'EpsAlg after %d terms returns %r, the entry of highest even order of the table built from all %d terms is %r' % (j + 1, got, j + 1, want[j])
+    return None
+
+
 def validate_dea(traces):
     d = vlib.run_dir('Trace_Dea-data')
     path = os.path.join(d, 'traces.json')
@@ -236,6 +277,10 @@ def run(tier, rep):
     for pr, why in zip(pairs, vlib.pool_map(run_dea_pair, pairs)):
         if why:
             rep.violation('dea-interleaved', dict(limexp=[pr[0][0], pr[1][0]], first=pr[0][1][:10], second=pr[1][1][:10]), 'Dea: ' + why)
+    long_items = [(k % 3, seed + 31 * k, rndp.choice([40, 105, 130, 160, 200])) for k in range(30 if tier == 'quick' else 300)]
+    for it, why in zip(long_items, vlib.pool_map(run_eps_long, long_items)):
+        if why:
+            rep.violation('epsalg-long', dict(kind=it[0], seed=it[1], length=it[2]), 'EpsAlg: ' + why)
     tres, accepted = validate_dea(traces)
     for i, t in enumerate(traces, 1):
         if i not in accepted:
@@ -257,7 +302,7 @@ def run(tier, rep):
         for p in pl[:1]:
             rep.violation('eps:' + p.split(' ')[0], dict(case={k: rec[k] for k in ('k', 'L', 'a', 'q', 's')}), p)
     states, trans, per = vlib.merge_tlc([fixed, unfixed, tres, wres])
-    cov = dict(interleaved_pairs=len(pairs), states=states, transitions=trans, traces_validated_against_impl=len(traces) + nrep,
+    cov = dict(interleaved_pairs=len(pairs), epsalg_long_sequences=len(long_items), states=states, transitions=trans, traces_validated_against_impl=len(traces) + nrep,
                dea_runs=len(traces), dea_calls=sum(len(t['ev']) for t in traces), eps_prefixes=nrep,
                samples=[dict(limexp=traces[0]['limexp'], ev=traces[0]['ev'][:8]), wres.records[len(wres.records) // 2]],
                evaluations=len(traces) + nrep,
